@@ -166,9 +166,12 @@ def run(ctx):
         json.dump(list(edges.values()), f)
     rep = os.path.join(ctx.scratch, "replay.json")
     rc, out, err = ctx.run_harness(["guid-replay", "--edges", epath, "--report", rep])
-    if rc == 2 or not os.path.exists(rep):
+    if not os.path.exists(rep):
         raise Inconclusive("guid-replay: " + out + err)
     R = json.load(open(rep))
+    # an edge whose call could not be pinned to one clock tick (a generator that sits a tick out inside the call, say) cannot be
+    # judged by state injection; the concurrent layers below still can -- the check is inconclusive only if they find nothing
+    pending = ("guid-replay: " + (R.get("inconclusive") or out + err)) if rc == 2 else ""
     ctx.cov["evaluations"] += R["calls"]
     ctx.cov["distinct_nontrivial"] += R["distinct_shapes"]
     ctx.notes["replayed_edges"] = len(edges)
@@ -214,6 +217,8 @@ def run(ctx):
     corelib.ledger(ctx, "C12", rruns)
     ctx.notes["restart_runs"] = len(rruns)
     ctx.notes["restart_runs_generator_stalled"] = sum(1 for r in rruns if "generator-stalled" in r["scenario"])
+    if pending and not ctx.violations:
+        raise Inconclusive(pending)
     ctx.cov["rule"] = ("evaluations = real NewGUID calls (replayed TLC edges + full-speed concurrent calls) + ids handed "
                        "out to messages published through the real daemon; a generator case is distinct by (result class, "
                        "clock-vs-lastTs offset, sequence before/after), a publish command by (kind, size class, node-id "
